@@ -164,7 +164,13 @@ class RefCount(FunctionContract):
         return f
 
     calls = property(lambda self: {"self.name_local": self._call("local"), "self.name_global": self._call("global")})
-    names = property(lambda self: {"is_state_variable": VFunc("is_state_variable", lambda c, i, a, k: VBool(B(self.persistent)))})
+    def m_is_state(self, ctx, it, args, kw):
+        a = ctx.deref(args[0]) if len(args) == 1 and not kw else None
+        if not (isinstance(a, VPy) and a.py == "<key>"):
+            raise Unsupported("is_state_variable(%r): must be asked of the variable's own name" % (args,))
+        return VBool(B(self.persistent))
+
+    names = property(lambda self: {"is_state_variable": VFunc("is_state_variable", self.m_is_state)})
 
     def binop_hook(self, ctx, it, op_, a, b):
         import ast as pyast
